@@ -151,6 +151,96 @@ fn run_impl(case: &Case) -> Vec<Obs> {
     out
 }
 
+/// Two sources registered in one tracer, their lexers driven in turn (order 0) or the second one first
+/// (order 1); all tokens are traced only at the end, when every source is registered.
+fn run_two(a: &Case, b: &Case, order: u8) -> (Vec<Obs>, Vec<Obs>) {
+    let mut tracer: Tracer = Default::default();
+    let mut interner: CsNameInterner = Default::default();
+    let _ = tracer.register_source_code(None, Origin::Terminal, DECOY);
+    let ra = tracer.register_source_code(None, Origin::File("a.tex".into()), &a.src);
+    let rb = tracer.register_source_code(None, Origin::File("b.tex".into()), &b.src);
+    let _ = tracer.register_source_code(None, Origin::Terminal, DECOY);
+    let mut lx = [Lexer::new(a.src.clone(), ra), Lexer::new(b.src.clone(), rb)];
+    let cases = [a, b];
+    let mut raw: [Vec<lexer::Result>; 2] = [vec![], vec![]];
+    let mut done = [false, false];
+    let mut turn = if order == 0 { 0 } else { 1 };
+    let cap = 4 * (a.src.chars().count() + b.src.chars().count()) + 32;
+    let mut n = 0;
+    while !(done[0] && done[1]) && n < cap {
+        n += 1;
+        if !done[turn] {
+            let cfg = ImplCfg { over: &cases[turn].over, elc: cases[turn].elc };
+            match lx[turn].next(&cfg, &mut interner, cases[turn].report) {
+                lexer::Result::EndOfInput => done[turn] = true,
+                r => raw[turn].push(r),
+            }
+        }
+        // order 0: strictly alternating; order 1: the second source to its end, then the first
+        if order == 0 || done[turn] {
+            turn = 1 - turn;
+        }
+    }
+    let names = ["a.tex", "b.tex"];
+    let mut out: [Vec<Obs>; 2] = [vec![], vec![]];
+    for k in 0..2 {
+        for r in &raw[k] {
+            match r {
+                lexer::Result::Token(t) => {
+                    let tr = tracer.trace(*t, &interner);
+                    let v = match t.value() {
+                        TValue::CommandRef(CommandRef::ControlSequence(n)) => TokV::Cs(interner.resolve(n).unwrap().to_string()),
+                        v => {
+                            let (c, k) = v.char_and_cat_code().unwrap();
+                            TokV::Ch(c, k as u8)
+                        }
+                    };
+                    let ok = tr.origin == Origin::File(names[k].into());
+                    out[k].push(Obs::Tok { v, line: tr.line_number, col: tr.index, content: if ok { tr.line_content } else { format!("<other source> {}", tr.line_content) }, value: tr.value });
+                }
+                lexer::Result::InvalidCharacter(c, key) => {
+                    let tr = tracer.trace(Token::new_letter(*c, *key), &interner);
+                    out[k].push(Obs::Invalid { c: *c, line: tr.line_number, col: tr.index, content: tr.line_content });
+                }
+                lexer::Result::EndOfLine => out[k].push(Obs::NewLine),
+                lexer::Result::EndOfInput => {}
+            }
+        }
+        if !done[k] {
+            out[k].push(Obs::Runaway);
+        }
+    }
+    let [x, y] = out;
+    (x, y)
+}
+
+fn judge_two(idx: u64, a: &Case, b: &Case, order: u8, low: &[u8; 128], acc: &mut Acc) {
+    acc.eval();
+    let ea = model_side(a, low);
+    let eb = model_side(b, low);
+    let na = ea.items.iter().filter(|i| matches!(i, Item::Tok(_))).count();
+    let nb = eb.items.iter().filter(|i| matches!(i, Item::Tok(_))).count();
+    if na >= 1 && nb >= 1 {
+        acc.nontrivial();
+        acc.count("two_sources_both_deliver_tokens");
+    }
+    let case = || json!({"kind": "two", "a": a.json(), "b": b.json(), "order": order});
+    let want = format!("a.tex: {} | b.tex: {}", show(&expect(&ea.items, &ea.src, a.report)), show(&expect(&eb.items, &eb.src, b.report)));
+    match catch(|| run_two(a, b, order)) {
+        Err(p) => acc.fail(idx, case(), want, p.describe(), "the lexer / tracer panicked"),
+        Ok((ga, gb)) => {
+            for (e, g, name) in [(&ea, &ga, "a.tex"), (&eb, &gb, "b.tex")] {
+                let ok = relaxed_agree(&e.items, &e.src, g).is_ok() || e.nohex.as_ref().map(|(i0, s0)| relaxed_agree(i0, s0, g).is_ok()).unwrap_or(false);
+                if !ok {
+                    let what = relaxed_agree(&e.items, &e.src, g).err().unwrap_or_default();
+                    acc.fail(idx, case(), want.clone(), format!("a.tex: {} | b.tex: {}", show(&ga), show(&gb)), format!("{what} [tokens of {name}, two sources in one tracer]"));
+                    return;
+                }
+            }
+        }
+    }
+}
+
 fn model_cfg(case: &Case, low: &[u8; 128], hex: bool) -> scan::Config {
     scan::Config { table: Table { low: *low, over: case.over.clone() }, end_line_char: case.elc, hex }
 }
@@ -647,7 +737,7 @@ fn judge_vm(idx: u64, case: &VmCase, low: &[u8; 128], acc: &mut Acc) {
 /// (-2147483648 is not a TeX integer: scan_int §445 reports "Number too big" for the magnitude 2147483648, and so does the crate)
 const VM_ELC_VALUES: [i64; 19] = [-2147483647, -2, -1, 0, 1, 9, 10, 13, 32, 37, 92, 94, 97, 126, 127, 128, 255, 256, 2147483647];
 const VM_ELC_LINES: [&str; 6] = ["ab", "\\foo", "\\", "a  ", "", "a b"];
-const VM_CAT_CHARS: [char; 9] = ['\0', '\u{7f}', 'é', 'a', '\\', ' ', '%', '^', '\r'];
+const VM_CAT_CHARS: [char; 12] = ['\0', '\u{7f}', '\u{80}', 'é', '€', '\u{10ffff}', 'a', '\\', ' ', '%', '^', '\r'];
 const VM_CAT_RESTS: [&str; 7] = ["@", "b@", "@b", "b@ @b", "\\@", "\\b@ c", "@@+"];
 
 /// `\endlinechar=N` (and, for 0 <= N < 128, `\catcode N=K`) then one or two menu lines, then `\END`.
@@ -835,6 +925,10 @@ ctx.assume("VM families: \\endlinechar=N appends character N for 0 <= N <= 127 a
 
     if let Some((_fam, case)) = ctx.replay_case() {
         let mut acc = Acc::default();
+        if case["kind"] == "two" {
+            judge_two(0, &Case::from_json(&case["a"]), &Case::from_json(&case["b"]), case["order"].as_u64().unwrap_or(0) as u8, &low, &mut acc);
+            ctx.finish_replay(acc);
+        }
         if case["kind"] == "vm" {
             judge_vm(0, &VmCase::from_json(&case), &low, &mut acc);
             ctx.finish_replay(acc);
@@ -902,6 +996,86 @@ ctx.assume("VM families: \\endlinechar=N appends character N for 0 <= N <= 127 a
             let d = vcore::digits(i, &[VM_CAT_CHARS.len() as u64, 16, nr]);
             let case = vm_cat_case(VM_CAT_CHARS[d[0] as usize], d[1] as u8, VM_CAT_RESTS[d[2] as usize]);
             judge_vm(i, &case, &low, acc);
+        });
+    }
+    // boundaries of the `^^` rules: every third character 0..=0x80 and the ends of the UTF-8 length classes
+    {
+        let mut chars: Vec<char> = (0u32..=0x80).filter_map(char::from_u32).collect();
+        for u in [0xFFu32, 0x100, 0x7FF, 0x800, 0xD7FF, 0xE000, 0xFFFF, 0x10000, 0x10FFFF] {
+            chars.push(char::from_u32(u).unwrap());
+        }
+        let ctxs = ["^^@", "\\^^@", "\\a^^@", "^^@x", "a^^@", "^^@^^@", "^^^^@"];
+        let nc = ctxs.len() as u64;
+        let ch = &chars;
+        ctx.family("caret-every-char", &format!("^^c for every c in 0..=0x80 and U+00FF U+0100 U+07FF U+0800 U+D7FF U+E000 U+FFFF U+10000 U+10FFFF, in the contexts {ctxs:?} x 7 end-line characters x both report flags x (plain table + every single reassignment)"), ch.len() as u64 * nc * nelc, |i, acc| {
+            let d = vcore::digits(i, &[ch.len() as u64, nc, nelc]);
+            let c = ch[d[0] as usize];
+            let src = ctxs[d[1] as usize].replace('@', &c.to_string());
+            if matches!(c as u32, 0x3F | 0x40 | 0x7F | 0x80) {
+                acc.count("caret_third_character_at_a_boundary");
+            }
+            sweep(i, &src, ELCS[d[2] as usize], 0, &low, acc);
+            sweep(i, &src, ELCS[d[2] as usize], 1, &low, acc);
+        });
+        // hex digits and their neighbours
+        let hx: Vec<char> = "/09:`afgAF78".chars().collect();
+        let nh = hx.len() as u64;
+        let h = &hx;
+        ctx.family("hex-boundary", "^^xy for x, y in / 0 9 : ` a f g A F 7 8 (the hex digits and their neighbours), at top level, inside a name, and with y supplied by the end-line character; both report flags", nh * nh * 3, |i, acc| {
+            let d = vcore::digits(i, &[nh, nh, 3]);
+            let (x, y) = (h[d[0] as usize], h[d[1] as usize]);
+            let (src, elc) = match d[2] {
+                0 => (format!("^^{x}{y}b"), Some('\r')),
+                1 => (format!("\\b^^{x}{y}b"), Some('\r')),
+                _ => (format!("a^^{x}"), Some(y)),
+            };
+            acc.count("hex_digit_boundary_pair");
+            sweep(i, &src, elc, 0, &low, acc);
+        });
+    }
+    // 2-, 3- and 4-byte characters
+    {
+        const SIGMA_M: [char; 9] = ['\\', '^', ' ', '\n', 'a', 'é', '€', '😀', '%'];
+        for (name, lq, lt, ndev) in [("multibyte", 5u32, 6u32, 0usize), ("multibyte-dev1", 3, 4, 1)] {
+            let len = ctx.pick(lq, lt);
+            let n = vcore::strings_upto(SIGMA_M.len() as u64, len) * nelc;
+            ctx.family(name, &format!("every string of length <= {len} over {SIGMA_M:?} (2-, 3- and 4-byte characters) x 7 end-line characters x both report flags x {}", if ndev == 0 { "plain table" } else { "every single reassignment" }), n, |i, acc| {
+                let src = nth_src(&SIGMA_M, i / nelc);
+                // a token after a 3- or 4-byte character on its line
+                if src.split('\n').any(|l| l.find(['€', '😀']).map(|p| l[p..].chars().count() > 1).unwrap_or(false)) {
+                    acc.count("text_after_a_3_or_4_byte_character");
+                }
+                sweep(i, &src, ELCS[(i % nelc) as usize], ndev, &low, acc);
+            });
+        }
+    }
+    // a second source in the same tracer
+    {
+        let len = 2u32;
+        let ns = vcore::strings_upto(SIGMA_Q.len() as u64, len);
+        ctx.family("two-sources", &format!("two sources in one tracer: every pair of strings of length <= {len} over {SIGMA_Q:?}, end-line character CR / none, lexers driven alternately or the second source first, every token traced after both were lexed"), ns * ns * 2 * 2, |i, acc| {
+            let d = vcore::digits(i, &[ns, ns, 2, 2]);
+            let elc = if d[2] == 0 { Some('\r') } else { None };
+            let a = Case { src: nth_src(&SIGMA_Q, d[0]), elc, over: vec![], report: true, switch: None };
+            let b = Case { src: nth_src(&SIGMA_Q, d[1]), elc, over: vec![], report: false, switch: None };
+            judge_two(i, &a, &b, d[3] as u8, &low, acc);
+        });
+    }
+    // long inputs (recursion depth of the name scanner, long lines, many lines)
+    {
+        let n = ctx.pick(3000usize, 30000usize);
+        let longs: Vec<String> = vec![
+            format!("\\^^{}+", "\u{1e}^".repeat(n)),
+            format!("\\{}^^-{} x", "a".repeat(n), "b".repeat(n)),
+            format!("a{}\n{}\n%{}é", " ".repeat(n), " ".repeat(n), "b".repeat(n)),
+            "a\n\n".repeat(n),
+            format!("{}x", "é€😀".repeat(n)),
+            "^^M\n".repeat(n),
+        ];
+        let l = &longs;
+        ctx.family("long-inputs", &format!("six inputs of about {n} repetitions: a chain of recursive ^^ reductions at the start of a name, a long name with a reduction, long runs of blanks and a long comment, many lines, a long run of multi-byte characters, many ^^M lines"), l.len() as u64, |i, acc| {
+            acc.count("long_input");
+            sweep(i, &l[i as usize], Some('\r'), 0, &low, acc);
         });
     }
     // every ASCII end-line character
@@ -974,6 +1148,11 @@ ctx.assume("VM families: \\endlinechar=N appends character N for 0 <= N <= 127 a
     ctx.require("config_changed_before_end", "the configuration changed while input was left (dynamic family)");
     ctx.require("vm_configuration_change_alters_the_tokens", "a \\catcode / \\endlinechar assignment executed by the VM changes the tokens delivered afterwards");
     ctx.require("vm_endlinechar_zero_visible", "\\endlinechar=0 with character 0 made a letter or other");
+    ctx.require("caret_third_character_at_a_boundary", "^^c with c = 0x3F, 0x40, 0x7F or 0x80");
+    ctx.require("hex_digit_boundary_pair", "^^xy with x, y at the edges of the hex digits");
+    ctx.require("text_after_a_3_or_4_byte_character", "a character follows a 3- or 4-byte character on its line");
+    ctx.require("two_sources_both_deliver_tokens", "two sources registered in one tracer both deliver tokens");
+    ctx.require("long_input", "an input of thousands of characters");
     ctx.require("caret_in_name", "a ^^ sequence is reduced inside a control sequence name");
     ctx.require("caret_recursive", "the product of a ^^ reduction starts a further ^^ sequence");
     ctx.require("nonascii_before_token", "a traced token stands after a non-ASCII character of the source");
